@@ -341,9 +341,14 @@ func mark(t *rapid.T, v any, n *int) any {
 			return fmt.Sprintf("%s%dsecretvalue", markPrefix, *n)
 		}
 	default:
-		if rapid.IntRange(0, 5).Draw(t, "swapn") == 0 {
+		switch rapid.IntRange(0, 7).Draw(t, "swapn") {
+		case 0:
 			*n++
 			return fmt.Sprintf("%s%dsecretvalue", markPrefix, *n)
+		case 1:
+			// a number sent in quotes: a string that reads as a number (a card number, a PIN)
+			*n++
+			return fmt.Sprintf("4111%04d7319", *n)
 		}
 	}
 	return v
